@@ -428,7 +428,15 @@ def real_tool(ctx):
     return rc
 
 
+def patchelf_like(ctx):
+    # install-time rpath fix-ups of stub "binaries": nothing to do
+    if '--version' in ctx.argv:
+        sys.stdout.write('patchelf 0.14.3\n')
+    return 0
+
+
 TOOLS = {
+    'patchelf': patchelf_like,
     'cc': gcc_like, 'c++': gcc_like, 'gcc': gcc_like, 'g++': gcc_like,
     'ar': ar_like, 'simtool': simtool, 'cl': cl_like, 'link': link_like,
     'lib': link_like, 'ninja': ninja_like,
